@@ -563,6 +563,9 @@ func sweepStrings(r *hx.Rand, extra int) {
 	for _, t := range seqs {
 		for _, q := range strQuotes {
 			for _, p := range []string{"", "r", "b"} {
+				if len(q) == 1 && p != "" && len(t) > 2 {
+					continue // single-quoted: the longer bodies in the plain form only
+				}
 				litString(p, q, strBody{t, "combo"})
 			}
 		}
